@@ -175,9 +175,11 @@ func MkCRL(issuer *Cert, this, next time.Time, revoked []*big.Int) []byte {
 	for _, s := range revoked {
 		rc = append(rc, pkix.RevokedCertificate{SerialNumber: s, RevocationTime: this})
 	}
+	ic := *issuer.Cert // any certificate may be made to "issue" a CRL here, whatever its key usage says
+	ic.KeyUsage |= x509.KeyUsageCRLSign
 	der, err := x509.CreateRevocationList(rand.Reader, &x509.RevocationList{
 		Number: big.NewInt(1), ThisUpdate: this, NextUpdate: next, RevokedCertificates: rc,
-	}, issuer.Cert, issuer.Key)
+	}, &ic, issuer.Key)
 	if err != nil {
 		panic(err)
 	}
